@@ -88,6 +88,8 @@ func NewStrListDecoder(reuseRecords bool) *StrListDecoder {
 }
 
 func (d *StrListDecoder) strSlice(n uint32) []string {
+	// n comes from the input: use it as a capacity hint only up to a limit
+	n = minUint32(n, 4096)
 	if d.strs != nil {
 		if n > uint32(cap(d.strs)) {
 			d.strs = make([]string, 0, n)
